@@ -10,7 +10,7 @@ Workspace callees that take tracked buffers are summarised by simulating them fo
 enum variant (depth-bounded); unknown effects are reported, never assumed benign."""
 from .sim import Sim, pkey, Budget
 from .prov import op_place, op_const, op_local
-from .util import local_callee_bodies
+from .util import local_callee_bodies, closure_for_operand
 from .facts import CallSite
 
 DIRTY = ("sep", "colon")
@@ -287,6 +287,9 @@ class BufSim(Sim):
                 snaps[t["dest"]["l"]] = (src, self.get(a, src))
                 return [((a[0], frozenset(snaps.items())), {})]
             return None
+        lc = self._loop_closure(t, bb, a)
+        if lc is not None:
+            return lc
         # element writers implemented in the crate (write_float etc.) and other workspace callees taking tracked buffers
         subs = [sb for sb in local_callee_bodies(self.F, CallSite(self.b, bb, t)) if sb.crate == self.crate]
         bufargs = [(i, self.root(x)) for i, x in enumerate(args) if self._recv_ty_is_buf(x) or self.is_buf_operand(x)]
@@ -314,6 +317,80 @@ class BufSim(Sim):
                     self.errors.append(e2)
             return forks or None
         return None
+
+    # ---------------------------------------------------------------- loops written as `iter.for_each(|x| ...)`
+    def _loop_closure(self, t, bb, a):
+        """`iter.for_each(closure)` where the closure appends to tracked buffers: the closure is the body of a loop, not a unit of its own
+        (it need not leave the buffers clean after every call), so it is simulated here, zero or more times, starting from the caller's
+        buffer states; when the iterator is `enumerate()` the first call sees position 0 and every later call a non-zero position."""
+        lc = loop_closure_call(self.F, self.b, t, self.crate)
+        if lc is None:
+            return None
+        cl, caps, enumerated = lc
+        # captured references, by name -> the caller's root they designate
+        names = [n for n, _ in caps]
+        cmap = {}
+        for n, op in caps:
+            r = self.root(op)
+            if r is not None and names.count(n) == 1:
+                cmap[n] = r
+            elif r is not None and (self._recv_ty_is_buf(op) or self.is_buf_operand(op)):
+                if [1 for n2, o2 in caps if n2 == n and (self._recv_ty_is_buf(o2) or self.is_buf_operand(o2))] == [1]:
+                    cmap[n] = r
+                else:
+                    self.unknown.append(("two captured buffers share one name", bb, cl.path))
+                    return None
+
+        def to_closure(state):
+            out = {}
+            for bid, st in state:
+                for n, r in cmap.items():
+                    if bid[0] == r[0] and bid[1] == r[1] and bid[2][:len(r[2])] == r[2]:
+                        out[("arg", 1, (n,) + bid[2][len(r[2]):])] = st
+            return frozenset(out.items())
+
+        def to_caller(a0, finals):
+            a2 = a0
+            for cb, st in finals.items():
+                if cb[0] == "arg" and cb[1] == 1 and cb[2] and cb[2][0] in cmap:
+                    r = cmap[cb[2][0]]
+                    a2 = self.put(a2, (r[0], r[1], r[2] + cb[2][1:]), st)
+            return a2
+
+        if self.depth >= 6:
+            self.unknown.append(("loop closure not simulated (depth)", bb, cl.path))
+            return None
+        pos_key = None
+        if enumerated and cl.arg_count >= 2:
+            pos_key = "2.0"
+        results = {a}
+        seen_entries = set()
+        work = [(a, True)]
+        while work:
+            ac, first = work.pop()
+            ek = (to_closure(ac[0]), first if pos_key else None)
+            if ek in seen_entries:
+                continue
+            seen_entries.add(ek)
+            sub = BufSim(self.F, cl, self.crate, self.depth + 1, self.cache)
+            env0 = {pos_key: ("i", 0) if first else ("nz",)} if pos_key else {}
+            sub.run(0, (ek[0], frozenset()), env0)      # Budget propagates
+            for u in sub.unknown:
+                self.unknown.append(u)
+            for e in sub.errors:
+                e2 = dict(e)
+                if "fn" not in e2:
+                    e2["fn"], e2["file"], e2["line"] = cl.path, cl.file, cl.term(e["bb"]).get("line")
+                e2["via"] = [(self.b.path, bb)] + e.get("via", [])
+                e2["caller_path"] = self.path_to()
+                if not any(x.get("fn") == e2["fn"] and x["kind"] == e2["kind"] and x["buf"] == e2["buf"] and x["bb"] == e2["bb"] for x in self.errors):
+                    self.errors.append(e2)
+            for variant, finals, path in sub.exits:
+                an = to_caller(ac, finals)
+                if an not in results:
+                    results.add(an)
+                work.append((an, False))
+        return [(r, {}) for r in sorted(results, key=str)]
 
     def _is_prefixed(self, bid):
         if bid[0] == "local" and not bid[2]:
@@ -397,6 +474,43 @@ class BufSim(Sim):
         v = env.get("0")
         variant = v[1] if isinstance(v, tuple) and v[0] == "v" else None
         self.exits.append((variant, dict(a[0]), self.path_to()))
+
+
+def loop_closure_call(F, body, t, crate):
+    """(closure body, [(capture name, operand)], iterator is `enumerate()`) when call terminator `t` is `Iterator::for_each(iter, closure)`
+    with a closure of this crate that captures something by reference"""
+    c = t.get("callee") or {}
+    if c.get("name") != "for_each" or "Iterator" not in (c.get("def") or "") or len(t.get("args", [])) < 2:
+        return None
+    args = t["args"]
+    cl = closure_for_operand(F, body, args[1])
+    if cl is None or cl.crate != crate:
+        return None
+    l = op_local(args[1])
+    caps = None
+    for kind, dbb, idx, node in body.defs().get(l, []):
+        if kind == "assign" and node["k"] == "assign" and node["rv"]["k"] == "agg" and node["rv"].get("closure"):
+            caps = list(zip(node["rv"].get("fields", []), node["rv"]["ops"]))
+    if caps is None:
+        return None
+    il = op_local(args[0])
+    enumerated = False
+    for kind, dbb, idx, node in body.defs().get(il, []) if il is not None else []:
+        if kind == "call" and (node.get("callee") or {}).get("name") == "enumerate" and "Iterator" in ((node.get("callee") or {}).get("def") or ""):
+            enumerated = True
+    return cl, caps, enumerated
+
+
+def loop_closures(F, body, crate):
+    """closure bodies that `body` runs as loop bodies through `for_each`"""
+    out = []
+    for i in body.live_blocks():
+        t = body.term(i)
+        if t["k"] == "call":
+            lc = loop_closure_call(F, body, t, crate)
+            if lc is not None:
+                out.append(lc[0])
+    return out
 
 
 def tracked_params(body):
